@@ -85,8 +85,28 @@ class WFile:
         self.lock = SimRLock(self.s, self.s.label("wl"))
         self.ubuf = bytearray()
         self.closed = False
+        self.nonblocking = False
         if owner is not None:
             owner.fds.append(self)
+
+    def _raw_short(self, data):
+        """one cooperative raw write on a non-blocking descriptor: waits until there is room, then writes what fits"""
+        p = self.pipe
+        s = self.s
+        while True:
+            if not p.r_open:
+                raise BrokenPipeError(32, "Broken pipe")
+            space = p.space()
+            if space > 0:
+                break
+            s.probe("write-blocked-on-full-pipe")
+            s.block(lambda: (not p.r_open) or p.space() > 0, None, "pipe-full", p.name)
+        k = min(space, len(data))
+        got = p.push(bytes(data[:k]))
+        if got < k:
+            s.switch("w-cut", p.name)
+            raise BrokenPipeError(32, "Broken pipe")
+        return got
 
     def _raw(self, data):
         p = self.pipe
@@ -126,6 +146,19 @@ class WFile:
                 d = bytes(self.ubuf)
                 del self.ubuf[:]
                 self._raw(d)
+            if self.nonblocking:
+                # BufferedWriter.write over short raw writes: write through while more than a buffer-full
+                # remains, keep the tail in the buffer
+                rest = memoryview(bytes(data))
+                while len(rest) > BUFSZ:
+                    n = self._raw_short(rest)
+                    rest = rest[n:]
+                    if len(rest) > BUFSZ:
+                        s.switch("w-part", self.pipe.name)
+                self.ubuf += rest
+                if len(rest):
+                    s.probe("nonblocking-writer-kept-a-tail-in-its-buffer")
+                return len(data)
             self._raw(bytes(data))
             return len(data)
         finally:
